@@ -2,6 +2,13 @@
 import json, sys, glob, jsonschema
 jsonschema.validate(json.load(open('/verif/MANIFEST.json')), json.load(open('/root/.vp/MANIFEST.schema.json')))
 n = 0
-for f in glob.glob('/verif/evidence/C*.json'):
-    jsonschema.validate(json.load(open(f)), json.load(open('/root/.vp/EVIDENCE.schema.json'))); n += 1
-print("schemas ok: manifest + %d evidence files" % n)
+bad = 0
+schema = json.load(open('/root/.vp/EVIDENCE.schema.json'))
+for f in sorted(glob.glob('/verif/evidence/C*.json')):
+    try:
+        jsonschema.validate(json.load(open(f)), schema); n += 1
+    except jsonschema.exceptions.ValidationError as e:
+        bad += 1
+        print("INVALID", f, e.message[:200], list(e.absolute_path))
+print("schemas ok: manifest + %d evidence files, %d invalid" % (n, bad))
+sys.exit(1 if bad else 0)
